@@ -210,10 +210,22 @@ pub fn guard<T>(f: impl FnOnce() -> T) -> Result<T, Violation> {
 
 /// Execute one case with the panic guard around the whole engine.
 pub fn run_case<E: Engine>(case: &E::Case, st: &mut Stats) -> Outcome {
-    match guard(|| E::execute(case, st)) {
+    // Whatever a case writes to the process's stdout (an `emit` or print that is not intercepted,
+    // which minimisation can produce by switching interception off) goes to a simulated sink
+    // (hook H2), not to the real one: the supervisor reads protocol lines from there. Engines that
+    // need a particular environment install their own on top of this.
+    let had_env = xeh::file::verif_env::with(|_| ()).is_some();
+    if !had_env {
+        xeh::file::verif_env::install(xeh::file::verif_env::Env::default());
+    }
+    let r = match guard(|| E::execute(case, st)) {
         Ok(r) => r,
         Err(v) => Err(v),
+    };
+    if !had_env {
+        xeh::file::verif_env::uninstall();
     }
+    r
 }
 
 // ---------------------------------------------------------------- replay files
@@ -257,10 +269,14 @@ pub fn minimise<E: Engine>(
     let mut cur = case.clone();
     let mut cur_v = target.clone();
     let mut rep = MinimiseReport { tried: 0, accepted: 0 };
+    // besides the number of candidates, a wall-clock allowance: with cases that take seconds each
+    // (megabyte inputs, long hauls) a few thousand candidates would take an hour. Stopping early
+    // only means a less minimal replay file; it still replays.
+    let started = std::time::Instant::now();
     'outer: loop {
         let cands = E::shrink(&cur);
         for c in cands {
-            if rep.tried >= budget {
+            if rep.tried >= budget || started.elapsed().as_secs() >= 90 {
                 break 'outer;
             }
             rep.tried += 1;
@@ -478,7 +494,15 @@ pub fn shard<E: Engine>(a: &ShardArgs) -> Json {
                 continue;
             }
             // minimise in-process while the same class keeps failing
+            let mut beats = 0u64;
             let mut test = |c: &E::Case| -> Option<Violation> {
+                // heartbeat: the in-flight marker keeps changing while candidates are tried, so the
+                // supervisor does not take a long minimisation for a hang of the case
+                beats += 1;
+                cur.set_len(0).ok();
+                cur.seek(SeekFrom::Start(0)).ok();
+                cur.write_all(format!("{{\"seed\":{},\"index\":{},\"minimising\":{}}}\n", seed, i, beats).as_bytes()).ok();
+                cur.write_all(text.as_bytes()).ok();
                 let mut s2 = Stats::new();
                 run_case::<E>(c, &mut s2).err()
             };
